@@ -11,6 +11,7 @@ import Stackage.Driver.Reveal
 import Stackage.Driver.Sched
 import Stackage.Driver.Equal
 import Stackage.Driver.Closures
+import Stackage.Driver.GenFuncs
 
 /-! Correspondence driver: case lines on stdin, `<id> M <model>` and `<id> S <spec>` lines on stdout. -/
 
@@ -33,6 +34,7 @@ def dispatch (stream payload : String) : String × String × String :=
   else if stream == "sched" then runSched payload
   else if stream == "eqpair" then runEq false payload else if stream == "equnit" then runEq true payload
   else if stream == "eqseqs" then runEqSeqs payload
+  else if stream == "genfuncs" then runGenFuncs payload
   else if stream == "closures" then runClosures payload
   else ("NOSTREAM", "NOSTREAM", "")
 
